@@ -498,6 +498,28 @@ def run(ctx):
             ctx.violation('tie of C05 (Gen/UnfuseGen.v vs AbelianArray.unfuse) no longer checks', {'broken': ug}, found_input=False)
     # ---- END unfusegen block
 
+    # ---- BEGIN concatgen block (harness/tie_concatgen.py, own shard and imports): the GENERATED _fuse_blocks_via_concat of
+    #      Gen/ConcatGen.v (tr/gen_concat.py, Props/C05k.v) vs `abelian_core._fuse_blocks_via_concat`, called directly on the
+    #      implementation's own tables (no fuse cache in front of calc_fuse_block_info), on the arrays and groups generated above
+    try:
+        import tie_concatgen
+        old_cache = ac._fuseinfo_cache_maxsize
+        ac._fuseinfo_cache_maxsize = 0
+        try:
+            cg = tie_concatgen.tie(ctx, sr, concat_cases)
+        finally:
+            ac._fuseinfo_cache_maxsize = old_cache
+    except Exception as e:
+        cg = ['tie of Gen/ConcatGen.v could not be evaluated: %s: %s' % (type(e).__name__, e)]
+    st = ctx.extra.get('tie_concatgen', {})
+    ctx.extra['tie']['concatgen_cases'] = st.get('concat_cases', 0)
+    ctx.extra['tie']['concatgen_filler_cases'] = st.get('with_filler', 0)
+    if cg:
+        ctx.broken += cg
+        if not ctx.violations:
+            ctx.violation('tie of C05 (Gen/ConcatGen.v vs _fuse_blocks_via_concat) no longer checks', {'broken': cg}, found_input=False)
+    # ---- END concatgen block
+
 # ------------------------------------------------------------------ replay
 def _fuse_all_ways(x, groups):
     """fuse with both strategies, cache on and off; returns (results, failures)"""
